@@ -26,12 +26,13 @@ inductive Kind
   | num    -- `0.25`, `-1.2`      float() ok, int() raises, first char digit/sign
   | big    -- `10.25`, `21.0`     as `num`, value > 4 (free-variable coded parameter)
   | dnum   -- `.5`                float() ok, int() raises, first char '.'  (a *word* for Command._parse_line)
+  | enum   -- `5E-1`, `1e3`       float() ok, int() raises, first char digit/sign, NO decimal point
   | word   -- `C1`, `$H`, `NOHKL` float() raises
   | sym    -- `-x,`, `1/2+y,`     first char digit/sign but float() raises
   deriving DecidableEq, Repr
 
 def Kind.floatOk : Kind → Bool
-  | .int | .num | .big | .dnum => true
+  | .int | .num | .big | .dnum | .enum => true
   | _ => false
 
 def Kind.intOk : Kind → Bool
@@ -41,7 +42,7 @@ def Kind.intOk : Kind → Bool
 /-- the numeric test of `Command._parse_line`: first character a digit or a sign — and, when the
     regenerated flag `dot` says so, a decimal point -/
 def Kind.cmdNumeric (dot : Bool) : Kind → Bool
-  | .int | .num | .big | .sym => true
+  | .int | .num | .big | .sym | .enum => true
   | .dnum => dot
   | .word => false
 
@@ -134,6 +135,7 @@ structure Tables where
   atomMinCols : Nat
   dotNumeric : Bool := false         -- Command._parse_line takes `.5` for a number
   atomRejectsBig : Bool := true      -- is_atom refuses a line with a raw coordinate above 4.0
+  caseSites : List (String × Bool) := []   -- where the keyword is read off the line, and whether it is upper-cased there
   assumedFalse : List String := []   -- opaque tests that valid input never triggers (spec side, see `assumed`)
   deriving Repr
 
